@@ -1,5 +1,26 @@
 // harness commands owned by the check of property C14 (see tools/props/C14.py)
-#[allow(unused_variables)]
+//
+// compilemod <hex path> <hex src>
+//   What `compiler::compile(vm, src, Some(path))` (the call made by start_import_impl) returns for a
+//   module source: `R ok` or `R err <Kind>` + one `M <hex message>` per message.  The messages of the
+//   deliberately uncompilable module sources are the compiler oracle of the Mechanism model.
 pub fn dispatch(cmd: &str, args: &[&str], out: &mut Vec<String>) -> bool {
-    false
+    match cmd {
+        "compilemod" => {
+            let path = crate::unhex_str(args[0]);
+            let src = crate::unhex_str(args[1]);
+            let mut vm = crate::new_vm();
+            match yarel::compiler::compile(&mut vm, src, Some(&path)) {
+                Ok(_) => out.push("R ok".to_owned()),
+                Err(e) => {
+                    out.push(format!("R err {}", crate::kind_name(e.kind())));
+                    for m in e.messages() {
+                        out.push(format!("M {}", crate::hex(m.as_bytes())));
+                    }
+                }
+            }
+            true
+        }
+        _ => false,
+    }
 }
